@@ -89,7 +89,7 @@ def race_scripts(rng, thorough, what=("twins", "rejoin")):
             for rep in range(3 if thorough else 1):
                 scen += 1
                 out.append({"scen": scen, "sock": t, "tag": "twins", "ops": [{"op": "bind", "name": "a", "ep": "tcp://127.0.0.1:0"},
-                                                                              {"op": "mt_twins", "name": "a", "rounds": 12 if thorough else 5, "groups": 8}]})
+                                                                              {"op": "mt_twins", "name": "a", "rounds": 12 if thorough else 8, "groups": 8}]})
     if "rejoin" in what:
         for t, reps in (("DEALER", 2), ("PUSH", 1)):
             for rep in range(reps * (3 if thorough else 1)):
